@@ -15,4 +15,17 @@ UNITS = [
          kind="bounded", bound="segment lists at most 3 decoder addresses (loops unwound completely for that size)",
          remove_bodies=[f for f in _ss if f != "bidib_state_bm_occ"], extra_flags=["--nondet-static", "--unwind", "12"], covers=2, min_obligations=8, timeout=200,
          stubbed_contracts=["bidib_state_get_segment_state_ref_by_nodeaddr", "bidib_state_update_train_available", "bidib_state_log_train_detect"]),
+] + [
+    Unit(name="C07." + n, src="units/C07/setters2.c", defines=[d], functions=[fn], props=pr, no_dfcc=True, kind=kind, bound=bound,
+         remove_bodies=[f for f in _ss if f != fn], extra_flags=["--nondet-static", "--unwind", "14"], covers=2, min_obligations=6, timeout=300,
+         stubbed_contracts=["bidib_state_get_*_ref* (lookup: NULL or an arbitrary element)"], note="logging arguments evaluated; wire values arbitrary")
+    for n, d, fn, pr, kind, bound in [
+        ("boost_state", "VP_H_BOOST_STATE", "bidib_state_boost_state", ["C07"], "proof", ""),
+        ("cs_state", "VP_H_CS_STATE", "bidib_state_cs_state", ["C07", "C12"], "proof", ""),
+        ("cs_drive_ack", "VP_H_CS_DRIVE_ACK", "bidib_state_cs_drive_ack", ["C07"], "proof", ""),
+        ("cs_accessory_ack", "VP_H_CS_ACCESSORY_ACK", "bidib_state_cs_accessory_ack", ["C07"], "proof", ""),
+        ("lc_wait", "VP_H_LC_WAIT", "bidib_state_lc_wait", ["C07"], "proof", ""),
+        ("boost_diagnostic", "VP_H_DIAGNOSTIC", "bidib_state_boost_diagnostic", ["C07", "C12"], "bounded", "diagnostic list of at most 6 bytes (3 key/value pairs), every byte arbitrary; loop unwound completely for that size"),
+        ("vendor", "VP_H_VENDOR", "bidib_state_vendor", ["C12"], "bounded", "vendor data of 2..12 bytes, every byte (incl. the two embedded lengths) arbitrary"),
+    ]
 ]
